@@ -79,11 +79,23 @@ func buildExpression(data yaml.Node, path []string) (expressions.Expression, err
 	if data.Type() != yaml.TypeIDString {
 		return nil, fmt.Errorf("%s found on non-string node at %s", data.Tag(), strings.Join(path, " -> "))
 	}
-	expr, err := expressions.New(data.Value())
+	expr, err := compileExpression(data.Value())
 	if err != nil {
 		return nil, fmt.Errorf("failed to compile expression at %s (%w)", strings.Join(path, " -> "), err)
 	}
 	return expr, nil
+}
+
+// compileExpression compiles the text of an expression. The expression parser dereferences a nil token
+// on some malformed texts (for example a dangling binary operator, "$.input.x =="); a workflow file must
+// not be able to crash the engine, so that is reported as a compilation error.
+func compileExpression(text string) (expr expressions.Expression, err error) {
+	defer func() {
+		if r := recover(); r != nil {
+			expr, err = nil, fmt.Errorf("malformed expression %q (%v)", text, r)
+		}
+	}()
+	return expressions.New(text)
 }
 
 func buildOneOfExpressions(data yaml.Node, path []string) (any, error) {
